@@ -90,10 +90,11 @@ type mutant struct {
 
 // structFields lists (json name, field, optional) the way encoding/json sees a struct whose embedded fields do not collide.
 type sfield struct {
-	name     string
-	typ      reflect.Type
-	optional bool
-	depth    int
+	name      string
+	typ       reflect.Type
+	optional  bool
+	depth     int
+	omitEmpty bool
 }
 
 func structFieldsOf(t reflect.Type) []sfield { return structFieldsAt(t, 0) }
@@ -123,13 +124,16 @@ func structFieldsAt(t reflect.Type, depth int) []sfield {
 		if name == "" {
 			name = f.Name
 		}
-		optional := false
+		optional, omitEmpty := false, false
 		for _, o := range strings.Split(opts, ",") {
 			if o == "omitempty" || o == "omitzero" {
 				optional = true
 			}
+			if o == "omitempty" {
+				omitEmpty = true
+			}
 		}
-		out = append(out, sfield{name, f.Type, optional, depth})
+		out = append(out, sfield{name, f.Type, optional, depth, omitEmpty})
 	}
 	if depth > 0 {
 		return out
